@@ -429,124 +429,124 @@ macro "frame" : tactic => `(tactic| (repeat' (first | rfl | split | dsimp only))
   unfold tlrBegin; frame
 
 @[simp] theorem tlrMaybeFinish_cfg (s : St) (p : Bool) : (tlrMaybeFinish s p).cfg = s.cfg := by
-  unfold tlrMaybeFinish; frame
+  unfold tlrMaybeFinish tlrEnd tlrScore tlrLeaveFirst; frame
 
 @[simp] theorem tlrMaybeFinish_now (s : St) (p : Bool) : (tlrMaybeFinish s p).now = s.now := by
-  unfold tlrMaybeFinish; frame
+  unfold tlrMaybeFinish tlrEnd tlrScore tlrLeaveFirst; frame
 
 @[simp] theorem tlrMaybeFinish_q (s : St) (p : Bool) : (tlrMaybeFinish s p).q = s.q := by
-  unfold tlrMaybeFinish; frame
+  unfold tlrMaybeFinish tlrEnd tlrScore tlrLeaveFirst; frame
 
 @[simp] theorem tlrMaybeFinish_cumAck (s : St) (p : Bool) : (tlrMaybeFinish s p).cumAck = s.cumAck := by
-  unfold tlrMaybeFinish; frame
+  unfold tlrMaybeFinish tlrEnd tlrScore tlrLeaveFirst; frame
 
 @[simp] theorem tlrMaybeFinish_myNextTSN (s : St) (p : Bool) : (tlrMaybeFinish s p).myNextTSN = s.myNextTSN := by
-  unfold tlrMaybeFinish; frame
+  unfold tlrMaybeFinish tlrEnd tlrScore tlrLeaveFirst; frame
 
 @[simp] theorem tlrMaybeFinish_minTSN2MeasureRTT (s : St) (p : Bool) : (tlrMaybeFinish s p).minTSN2MeasureRTT = s.minTSN2MeasureRTT := by
-  unfold tlrMaybeFinish; frame
+  unfold tlrMaybeFinish tlrEnd tlrScore tlrLeaveFirst; frame
 
 @[simp] theorem tlrMaybeFinish_list (s : St) (p : Bool) : (tlrMaybeFinish s p).list = s.list := by
-  unfold tlrMaybeFinish; frame
+  unfold tlrMaybeFinish tlrEnd tlrScore tlrLeaveFirst; frame
 
 @[simp] theorem tlrMaybeFinish_reoWnd (s : St) (p : Bool) : (tlrMaybeFinish s p).reoWnd = s.reoWnd := by
-  unfold tlrMaybeFinish; frame
+  unfold tlrMaybeFinish tlrEnd tlrScore tlrLeaveFirst; frame
 
 @[simp] theorem tlrMaybeFinish_minRTT (s : St) (p : Bool) : (tlrMaybeFinish s p).minRTT = s.minRTT := by
-  unfold tlrMaybeFinish; frame
+  unfold tlrMaybeFinish tlrEnd tlrScore tlrLeaveFirst; frame
 
 @[simp] theorem tlrMaybeFinish_minWnd (s : St) (p : Bool) : (tlrMaybeFinish s p).minWnd = s.minWnd := by
-  unfold tlrMaybeFinish; frame
+  unfold tlrMaybeFinish tlrEnd tlrScore tlrLeaveFirst; frame
 
 @[simp] theorem tlrMaybeFinish_deliveredTime (s : St) (p : Bool) : (tlrMaybeFinish s p).deliveredTime = s.deliveredTime := by
-  unfold tlrMaybeFinish; frame
+  unfold tlrMaybeFinish tlrEnd tlrScore tlrLeaveFirst; frame
 
 @[simp] theorem tlrMaybeFinish_hw (s : St) (p : Bool) : (tlrMaybeFinish s p).hw = s.hw := by
-  unfold tlrMaybeFinish; frame
+  unfold tlrMaybeFinish tlrEnd tlrScore tlrLeaveFirst; frame
 
 @[simp] theorem tlrMaybeFinish_reorderingSeen (s : St) (p : Bool) : (tlrMaybeFinish s p).reorderingSeen = s.reorderingSeen := by
-  unfold tlrMaybeFinish; frame
+  unfold tlrMaybeFinish tlrEnd tlrScore tlrLeaveFirst; frame
 
 @[simp] theorem tlrMaybeFinish_keepInflated (s : St) (p : Bool) : (tlrMaybeFinish s p).keepInflated = s.keepInflated := by
-  unfold tlrMaybeFinish; frame
+  unfold tlrMaybeFinish tlrEnd tlrScore tlrLeaveFirst; frame
 
 @[simp] theorem tlrMaybeFinish_rackDeadline (s : St) (p : Bool) : (tlrMaybeFinish s p).rackDeadline = s.rackDeadline := by
-  unfold tlrMaybeFinish; frame
+  unfold tlrMaybeFinish tlrEnd tlrScore tlrLeaveFirst; frame
 
 @[simp] theorem tlrMaybeFinish_ptoDeadline (s : St) (p : Bool) : (tlrMaybeFinish s p).ptoDeadline = s.ptoDeadline := by
-  unfold tlrMaybeFinish; frame
+  unfold tlrMaybeFinish tlrEnd tlrScore tlrLeaveFirst; frame
 
 @[simp] theorem tlrMaybeFinish_tlrStartTime (s : St) (p : Bool) : (tlrMaybeFinish s p).tlrStartTime = s.tlrStartTime := by
-  unfold tlrMaybeFinish; frame
+  unfold tlrMaybeFinish tlrEnd tlrScore tlrLeaveFirst; frame
 
 @[simp] theorem tlrMaybeFinish_hbProbes (s : St) (p : Bool) : (tlrMaybeFinish s p).hbProbes = s.hbProbes := by
-  unfold tlrMaybeFinish; frame
+  unfold tlrMaybeFinish tlrEnd tlrScore tlrLeaveFirst; frame
 
 @[simp] theorem rackDelivered_cfg (s : St) (f : Bool) (nt : Int) (ntsn : BitVec 32) : (rackDelivered s f nt ntsn).cfg = s.cfg := by
-  unfold rackDelivered; frame
+  unfold rackDelivered rackNewer rackHw; frame
 
 @[simp] theorem rackDelivered_now (s : St) (f : Bool) (nt : Int) (ntsn : BitVec 32) : (rackDelivered s f nt ntsn).now = s.now := by
-  unfold rackDelivered; frame
+  unfold rackDelivered rackNewer rackHw; frame
 
 @[simp] theorem rackDelivered_q (s : St) (f : Bool) (nt : Int) (ntsn : BitVec 32) : (rackDelivered s f nt ntsn).q = s.q := by
-  unfold rackDelivered; frame
+  unfold rackDelivered rackNewer rackHw; frame
 
 @[simp] theorem rackDelivered_cumAck (s : St) (f : Bool) (nt : Int) (ntsn : BitVec 32) : (rackDelivered s f nt ntsn).cumAck = s.cumAck := by
-  unfold rackDelivered; frame
+  unfold rackDelivered rackNewer rackHw; frame
 
 @[simp] theorem rackDelivered_myNextTSN (s : St) (f : Bool) (nt : Int) (ntsn : BitVec 32) : (rackDelivered s f nt ntsn).myNextTSN = s.myNextTSN := by
-  unfold rackDelivered; frame
+  unfold rackDelivered rackNewer rackHw; frame
 
 @[simp] theorem rackDelivered_minTSN2MeasureRTT (s : St) (f : Bool) (nt : Int) (ntsn : BitVec 32) : (rackDelivered s f nt ntsn).minTSN2MeasureRTT = s.minTSN2MeasureRTT := by
-  unfold rackDelivered; frame
+  unfold rackDelivered rackNewer rackHw; frame
 
 @[simp] theorem rackDelivered_list (s : St) (f : Bool) (nt : Int) (ntsn : BitVec 32) : (rackDelivered s f nt ntsn).list = s.list := by
-  unfold rackDelivered; frame
+  unfold rackDelivered rackNewer rackHw; frame
 
 @[simp] theorem rackDelivered_reoWnd (s : St) (f : Bool) (nt : Int) (ntsn : BitVec 32) : (rackDelivered s f nt ntsn).reoWnd = s.reoWnd := by
-  unfold rackDelivered; frame
+  unfold rackDelivered rackNewer rackHw; frame
 
 @[simp] theorem rackDelivered_minRTT (s : St) (f : Bool) (nt : Int) (ntsn : BitVec 32) : (rackDelivered s f nt ntsn).minRTT = s.minRTT := by
-  unfold rackDelivered; frame
+  unfold rackDelivered rackNewer rackHw; frame
 
 @[simp] theorem rackDelivered_minWnd (s : St) (f : Bool) (nt : Int) (ntsn : BitVec 32) : (rackDelivered s f nt ntsn).minWnd = s.minWnd := by
-  unfold rackDelivered; frame
+  unfold rackDelivered rackNewer rackHw; frame
 
 @[simp] theorem rackDelivered_keepInflated (s : St) (f : Bool) (nt : Int) (ntsn : BitVec 32) : (rackDelivered s f nt ntsn).keepInflated = s.keepInflated := by
-  unfold rackDelivered; frame
+  unfold rackDelivered rackNewer rackHw; frame
 
 @[simp] theorem rackDelivered_rackDeadline (s : St) (f : Bool) (nt : Int) (ntsn : BitVec 32) : (rackDelivered s f nt ntsn).rackDeadline = s.rackDeadline := by
-  unfold rackDelivered; frame
+  unfold rackDelivered rackNewer rackHw; frame
 
 @[simp] theorem rackDelivered_ptoDeadline (s : St) (f : Bool) (nt : Int) (ntsn : BitVec 32) : (rackDelivered s f nt ntsn).ptoDeadline = s.ptoDeadline := by
-  unfold rackDelivered; frame
+  unfold rackDelivered rackNewer rackHw; frame
 
 @[simp] theorem rackDelivered_tlrActive (s : St) (f : Bool) (nt : Int) (ntsn : BitVec 32) : (rackDelivered s f nt ntsn).tlrActive = s.tlrActive := by
-  unfold rackDelivered; frame
+  unfold rackDelivered rackNewer rackHw; frame
 
 @[simp] theorem rackDelivered_tlrFirstRTT (s : St) (f : Bool) (nt : Int) (ntsn : BitVec 32) : (rackDelivered s f nt ntsn).tlrFirstRTT = s.tlrFirstRTT := by
-  unfold rackDelivered; frame
+  unfold rackDelivered rackNewer rackHw; frame
 
 @[simp] theorem rackDelivered_tlrHadAdditionalLoss (s : St) (f : Bool) (nt : Int) (ntsn : BitVec 32) : (rackDelivered s f nt ntsn).tlrHadAdditionalLoss = s.tlrHadAdditionalLoss := by
-  unfold rackDelivered; frame
+  unfold rackDelivered rackNewer rackHw; frame
 
 @[simp] theorem rackDelivered_tlrEndTSN (s : St) (f : Bool) (nt : Int) (ntsn : BitVec 32) : (rackDelivered s f nt ntsn).tlrEndTSN = s.tlrEndTSN := by
-  unfold rackDelivered; frame
+  unfold rackDelivered rackNewer rackHw; frame
 
 @[simp] theorem rackDelivered_tlrBurstFirst (s : St) (f : Bool) (nt : Int) (ntsn : BitVec 32) : (rackDelivered s f nt ntsn).tlrBurstFirst = s.tlrBurstFirst := by
-  unfold rackDelivered; frame
+  unfold rackDelivered rackNewer rackHw; frame
 
 @[simp] theorem rackDelivered_tlrBurstLater (s : St) (f : Bool) (nt : Int) (ntsn : BitVec 32) : (rackDelivered s f nt ntsn).tlrBurstLater = s.tlrBurstLater := by
-  unfold rackDelivered; frame
+  unfold rackDelivered rackNewer rackHw; frame
 
 @[simp] theorem rackDelivered_tlrGoodOps (s : St) (f : Bool) (nt : Int) (ntsn : BitVec 32) : (rackDelivered s f nt ntsn).tlrGoodOps = s.tlrGoodOps := by
-  unfold rackDelivered; frame
+  unfold rackDelivered rackNewer rackHw; frame
 
 @[simp] theorem rackDelivered_tlrStartTime (s : St) (f : Bool) (nt : Int) (ntsn : BitVec 32) : (rackDelivered s f nt ntsn).tlrStartTime = s.tlrStartTime := by
-  unfold rackDelivered; frame
+  unfold rackDelivered rackNewer rackHw; frame
 
 @[simp] theorem rackDelivered_hbProbes (s : St) (f : Bool) (nt : Int) (ntsn : BitVec 32) : (rackDelivered s f nt ntsn).hbProbes = s.hbProbes := by
-  unfold rackDelivered; frame
+  unfold rackDelivered rackNewer rackHw; frame
 
 @[simp] theorem reoMinRTT_cfg (s : St) : (reoMinRTT s).cfg = s.cfg := by
   unfold reoMinRTT; frame
@@ -1599,63 +1599,63 @@ macro "frame" : tactic => `(tactic| (repeat' (first | rfl | split | dsimp only))
   simp [rackReoWnd]
 
 @[simp] theorem afterWalk_cfg (s : St) (env : Env) (r : WalkOut) : (afterWalk s env r).cfg = s.cfg := by
-  unfold afterWalk; (repeat' (first | rfl | split | dsimp only)) <;> simp
+  unfold afterWalk afterMarks; (repeat' (first | rfl | split | dsimp only)) <;> simp
 
 @[simp] theorem afterWalk_now (s : St) (env : Env) (r : WalkOut) : (afterWalk s env r).now = s.now := by
-  unfold afterWalk; (repeat' (first | rfl | split | dsimp only)) <;> simp
+  unfold afterWalk afterMarks; (repeat' (first | rfl | split | dsimp only)) <;> simp
 
 @[simp] theorem afterWalk_cumAck (s : St) (env : Env) (r : WalkOut) : (afterWalk s env r).cumAck = s.cumAck := by
-  unfold afterWalk; (repeat' (first | rfl | split | dsimp only)) <;> simp
+  unfold afterWalk afterMarks; (repeat' (first | rfl | split | dsimp only)) <;> simp
 
 @[simp] theorem afterWalk_myNextTSN (s : St) (env : Env) (r : WalkOut) : (afterWalk s env r).myNextTSN = s.myNextTSN := by
-  unfold afterWalk; (repeat' (first | rfl | split | dsimp only)) <;> simp
+  unfold afterWalk afterMarks; (repeat' (first | rfl | split | dsimp only)) <;> simp
 
 @[simp] theorem afterWalk_minTSN2MeasureRTT (s : St) (env : Env) (r : WalkOut) : (afterWalk s env r).minTSN2MeasureRTT = s.minTSN2MeasureRTT := by
-  unfold afterWalk; (repeat' (first | rfl | split | dsimp only)) <;> simp
+  unfold afterWalk afterMarks; (repeat' (first | rfl | split | dsimp only)) <;> simp
 
 @[simp] theorem afterWalk_reoWnd (s : St) (env : Env) (r : WalkOut) : (afterWalk s env r).reoWnd = s.reoWnd := by
-  unfold afterWalk; (repeat' (first | rfl | split | dsimp only)) <;> simp
+  unfold afterWalk afterMarks; (repeat' (first | rfl | split | dsimp only)) <;> simp
 
 @[simp] theorem afterWalk_minRTT (s : St) (env : Env) (r : WalkOut) : (afterWalk s env r).minRTT = s.minRTT := by
-  unfold afterWalk; (repeat' (first | rfl | split | dsimp only)) <;> simp
+  unfold afterWalk afterMarks; (repeat' (first | rfl | split | dsimp only)) <;> simp
 
 @[simp] theorem afterWalk_minWnd (s : St) (env : Env) (r : WalkOut) : (afterWalk s env r).minWnd = s.minWnd := by
-  unfold afterWalk; (repeat' (first | rfl | split | dsimp only)) <;> simp
+  unfold afterWalk afterMarks; (repeat' (first | rfl | split | dsimp only)) <;> simp
 
 @[simp] theorem afterWalk_deliveredTime (s : St) (env : Env) (r : WalkOut) : (afterWalk s env r).deliveredTime = s.deliveredTime := by
-  unfold afterWalk; (repeat' (first | rfl | split | dsimp only)) <;> simp
+  unfold afterWalk afterMarks; (repeat' (first | rfl | split | dsimp only)) <;> simp
 
 @[simp] theorem afterWalk_hw (s : St) (env : Env) (r : WalkOut) : (afterWalk s env r).hw = s.hw := by
-  unfold afterWalk; (repeat' (first | rfl | split | dsimp only)) <;> simp
+  unfold afterWalk afterMarks; (repeat' (first | rfl | split | dsimp only)) <;> simp
 
 @[simp] theorem afterWalk_reorderingSeen (s : St) (env : Env) (r : WalkOut) : (afterWalk s env r).reorderingSeen = s.reorderingSeen := by
-  unfold afterWalk; (repeat' (first | rfl | split | dsimp only)) <;> simp
+  unfold afterWalk afterMarks; (repeat' (first | rfl | split | dsimp only)) <;> simp
 
 @[simp] theorem afterWalk_keepInflated (s : St) (env : Env) (r : WalkOut) : (afterWalk s env r).keepInflated = s.keepInflated := by
-  unfold afterWalk; (repeat' (first | rfl | split | dsimp only)) <;> simp
+  unfold afterWalk afterMarks; (repeat' (first | rfl | split | dsimp only)) <;> simp
 
 @[simp] theorem afterWalk_rackDeadline (s : St) (env : Env) (r : WalkOut) : (afterWalk s env r).rackDeadline = s.rackDeadline := by
-  unfold afterWalk; (repeat' (first | rfl | split | dsimp only)) <;> simp
+  unfold afterWalk afterMarks; (repeat' (first | rfl | split | dsimp only)) <;> simp
 
 @[simp] theorem afterWalk_ptoDeadline (s : St) (env : Env) (r : WalkOut) : (afterWalk s env r).ptoDeadline = s.ptoDeadline := by
-  unfold afterWalk; (repeat' (first | rfl | split | dsimp only)) <;> simp
+  unfold afterWalk afterMarks; (repeat' (first | rfl | split | dsimp only)) <;> simp
 
 @[simp] theorem afterWalk_tlrActive (s : St) (env : Env) (r : WalkOut) : (afterWalk s env r).tlrActive = s.tlrActive := by
-  unfold afterWalk; (repeat' (first | rfl | split | dsimp only)) <;> simp
+  unfold afterWalk afterMarks; (repeat' (first | rfl | split | dsimp only)) <;> simp
 
 @[simp] theorem afterWalk_tlrEndTSN (s : St) (env : Env) (r : WalkOut) : (afterWalk s env r).tlrEndTSN = s.tlrEndTSN := by
-  unfold afterWalk; (repeat' (first | rfl | split | dsimp only)) <;> simp
+  unfold afterWalk afterMarks; (repeat' (first | rfl | split | dsimp only)) <;> simp
 
 @[simp] theorem afterWalk_tlrStartTime (s : St) (env : Env) (r : WalkOut) : (afterWalk s env r).tlrStartTime = s.tlrStartTime := by
-  unfold afterWalk; (repeat' (first | rfl | split | dsimp only)) <;> simp
+  unfold afterWalk afterMarks; (repeat' (first | rfl | split | dsimp only)) <;> simp
 
 @[simp] theorem afterWalk_hbProbes (s : St) (env : Env) (r : WalkOut) : (afterWalk s env r).hbProbes = s.hbProbes := by
-  unfold afterWalk; (repeat' (first | rfl | split | dsimp only)) <;> simp
+  unfold afterWalk afterMarks; (repeat' (first | rfl | split | dsimp only)) <;> simp
 
 @[simp] theorem afterWalk_q (s : St) (env : Env) (r : WalkOut) : (afterWalk s env r).q = r.q := by
-  unfold afterWalk; (repeat' (first | rfl | split | dsimp only)) <;> simp
+  unfold afterWalk afterMarks; (repeat' (first | rfl | split | dsimp only)) <;> simp
 
 @[simp] theorem afterWalk_list (s : St) (env : Env) (r : WalkOut) : (afterWalk s env r).list = r.list := by
-  unfold afterWalk; (repeat' (first | rfl | split | dsimp only)) <;> simp
+  unfold afterWalk afterMarks; (repeat' (first | rfl | split | dsimp only)) <;> simp
 
 end Rack
